@@ -245,7 +245,7 @@ func runC14(c *Ctx) {
 					if !isSel || !eng.IsField(info, s.X, ent.Field) || !cf.Dominates(cf.LocOf(add), cf.LocOf(g.Node)) {
 						continue
 					}
-					k, isC := eng.ConstInt(info, add.Args[0])
+					k, isC := eng.ConstInt(info, exprAt(cf, cf.LocOf(add), add.Args[0]))
 					if !isC {
 						continue
 					}
